@@ -28,7 +28,8 @@ ASSUMPTIONS = ["exposed AC attributes: power, mode, fan, set-point, temperature,
 
 
 def bounds(tier):
-    return {"frames": 3, "arrangements": ["once", "twice", "unsubscribed"], "raising_subscriber": [False, True]}
+    return {"frames": 3, "arrangements": ["once", "twice", "unsubscribed"], "raising_subscriber": [False, True],
+            "target_entity": "AC 0 / zone 0" if tier == "quick" else "either AC, each of the four zones"}
 
 
 def instances(tier):
@@ -36,6 +37,12 @@ def instances(tier):
     for g in (4, 5):
         for k in ("ac", "zone", "timer", "error", "error_silent", "version"):
             out.append({"kind": k, "gen": g})
+        if tier == "thorough":
+            # the other entities as target: second AC, every other zone (owned by either AC)
+            for k in ("ac", "timer", "error", "error_silent"):
+                out.append({"kind": k, "gen": g, "target": 1})
+            for z in (1, 2, 3):
+                out.append({"kind": "zone", "gen": g, "target": z})
     return out
 
 
@@ -62,7 +69,10 @@ def run(ctx, p):
     g = Gen(p["gen"])
     kind = p["kind"]
     inst = Installation.simple(g.n, n_acs=2, zones_per_ac=2)
-    inst.errors[0] = "ER: 0001"
+    tgt = p.get("target", 0)
+    ta = tgt if kind != "zone" else tgt // 2          # the AC concerned (owner of the target zone)
+    tz = tgt if kind == "zone" else 0
+    inst.errors[ta] = "ER: 0001"
     arrangement = ("once", "twice", "unsub")[ctx.choice("arrangement", 3)]
     with_raiser = bool(ctx.choice("raiser", 2))
     log = []
@@ -72,8 +82,8 @@ def run(ctx, p):
         rig.run(1.0)
         ctx.check(rig.init_result is True, "repeat_is_silent", detail="handshake failed")
         at = rig.at
-        ac0, ac1 = rig.ac(0), rig.ac(1)
-        z0 = rig.zone(0)
+        ac0, ac1 = rig.ac(ta), rig.ac(1 - ta)
+        z0 = rig.zone(tz)
         probe_gen, probe_state, probe_zone, probe_at = Rec("ac_general", log), Rec("ac_state", log), Rec("zone", log), Rec("airtouch", log)
         other_ac = Rec("other_ac", log)
         if with_raiser:
@@ -125,20 +135,20 @@ def run(ctx, p):
         # ---- frame 2: free content -----------------------------------------------------------------
         exposed_changed = None
         identical = None
-        ident = 0
+        ident = ta
         if kind == "ac":
-            old = T.ac_status_record(inst.ac_status[0])
-            r, e = c10._sym_ac_record(ctx, g.n, 0, "n")
+            old = T.ac_status_record(inst.ac_status[ta])
+            r, e = c10._sym_ac_record(ctx, g.n, ta, "n")
             ctx.assume(e["error_code"] == 0)      # the error-text exchange (a second notification) is the 'error' instance
             keys = ["power_code", "mode_code", "fan_code", "spill", "error_code"] + (["set_point"] if g.n == 4 else ["set_point_raw", "bypass"]) + ["temp_raw"]
             allkeys = [k for k in e if k not in ("temp_unavailable", "set_point_unavailable")]
             exposed_changed = sym_or(*[e[k] != old[k] for k in keys])
             identical = sym_and(*[e[k] == old[k] for k in allkeys])
-            inst.ac_status[0] = r
-            calls = push(con.ac_status_frame(pid=0x61, only=[0]))
+            inst.ac_status[ta] = r
+            calls = push(con.ac_status_frame(pid=0x61, only=[ta]))
         elif kind == "zone":
-            old = (r4.group_status_record if g.n == 4 else r5.zone_status_record)(inst.zone_status[0])
-            r, e = c10._sym_zone_record(ctx, g.n, 0, "n")
+            old = (r4.group_status_record if g.n == 4 else r5.zone_status_record)(inst.zone_status[tz])
+            r, e = c10._sym_zone_record(ctx, g.n, tz, "n")
             if g.n == 4:
                 keys = ["power_code", "method_code", "damper_percentage", "battery_code", "supports_turbo", "has_sensor", "spill"]
                 cond = [e[k] != old[k] for k in keys]
@@ -152,25 +162,25 @@ def run(ctx, p):
                 cond.append(sym_and(e["has_sensor"] == 1, sym_not(e["temp_unavailable"]), e["temp_raw"] != old["temp_raw"]))
             exposed_changed = sym_or(*cond)
             identical = sym_and(*[e[k] == old[k] for k in e])
-            inst.zone_status[0] = r
-            calls = push(con.zone_status_frame(pid=0x61, only=[0]))
+            inst.zone_status[tz] = r
+            calls = push(con.zone_status_frame(pid=0x61, only=[tz]))
         elif kind == "timer":
-            old = inst.timers[0]
+            old = inst.timers[ta]
             tm = (ctx.bits("on_dis", 1), ctx.int("on_h", 0, 23), ctx.int("on_m", 0, 59), ctx.bits("off_dis", 1), ctx.int("off_h", 0, 23), ctx.int("off_m", 0, 59))
             # exposed: next_quick_timer() = None when disabled, else (hour, minute)
             def vis(t, o):
                 return sym_or(t[0] != o[0], sym_and(t[0] == 0, sym_or(t[1] != o[1], t[2] != o[2])))
             exposed_changed = sym_or(vis(tm[0:3], old[0:3]), vis(tm[3:6], old[3:6]))
             identical = sym_and(*[a == b for a, b in zip(tm, old)])
-            inst.timers[0] = tm
+            inst.timers[ta] = tm
             calls = push(con.timer_status_frame(pid=0x61))
         elif kind in ("error", "error_silent"):
             # the error code appears: AC subscribers hear about the status change, then about the error text
-            rec = list(inst.ac_status[0])
+            rec = list(inst.ac_status[ta])
             rec[6], rec[7] = 0x12, 0x34
-            inst.ac_status[0] = rec
+            inst.ac_status[ta] = rec
             exposed_changed, identical = True, False
-            calls = push(con.ac_status_frame(pid=0x61, only=[0]))
+            calls = push(con.ac_status_frame(pid=0x61, only=[ta]))
         else:
             upd = ctx.bits("upd", 1)
             same_text = bool(ctx.choice("same_text", 2))
@@ -194,14 +204,15 @@ def run(ctx, p):
                 ok_n = names.count(main) == exp_n
             ctx.check(ok_n, "change_notifies" if expect_probe else "unsubscribe_stops", detail=dict(detail, calls=calls))
             ctx.check(names.count(main) <= (2 if kind == "error" else 1), "double_subscribe_once", detail=dict(detail, calls=calls))
-            ctx.check(all(c[1] == ident for c in calls if c[0] in (main, "raiser")), "right_identifier", detail=dict(detail, calls=calls))
+            ctx.check(all(c[1] == (tz if kind == "zone" else ident) for c in calls if c[0] in (main, "raiser")), "right_identifier", detail=dict(detail, calls=calls))
             if kind in ("ac", "timer", "error", "error_silent"):
                 exp_state = 0 if state_arr == "unsub" else 1
                 ok_state = (names.count("ac_state") == exp_state) if kind in ("ac", "timer") else ("ac_state" in names)
                 ctx.check(ok_state and "other_ac" not in names, "change_notifies" if exp_state else "unsubscribe_stops",
                           detail=dict(detail, calls=calls, state_arrangement=state_arr, why="AC-state subscriber / other AC"))
             if kind == "zone":
-                ctx.check("ac_general" in names and "ac_state" not in names and "other_ac" not in names and all(c[1] == 0 for c in calls),
+                ctx.check("ac_general" in names and "ac_state" not in names and "other_ac" not in names
+                          and all(c[1] == (tz if c[0] in ("zone", "raiser") else ta) for c in calls),
                           "zone_reaches_ac_general_only", detail=dict(detail, calls=calls))
             if with_raiser:
                 ctx.check("raiser" in names and (names.count(main) >= 1 or not expect_probe), "raiser_does_not_starve", detail=dict(detail, calls=calls))
@@ -210,21 +221,21 @@ def run(ctx, p):
         # ---- frame 3: a fixed different report: reception and notification still work ------------------
         same3 = False
         if kind in ("ac", "error", "error_silent"):
-            prev = inst.ac_status[0]
+            prev = inst.ac_status[ta]
             err3 = 0x1234 if kind == "error_silent" else 0        # error_silent: the set-point changes while the error persists
-            inst.ac_status[0] = (r4.build_ac_status(0, 0, 2, 5, 1, 0, 17, 555, err3) if g.n == 4 else r5.build_ac_status(0, 2, 2, 5, 33, 1, 1, 1, 0, 555, err3))
-            ra, rb = T.ac_status_record(prev), T.ac_status_record(inst.ac_status[0])
+            inst.ac_status[ta] = (r4.build_ac_status(ta, 0, 2, 5, 1, 0, 17, 555, err3) if g.n == 4 else r5.build_ac_status(ta, 2, 2, 5, 33, 1, 1, 1, 0, 555, err3))
+            ra, rb = T.ac_status_record(prev), T.ac_status_record(inst.ac_status[ta])
             same3 = _b(sym_and(*[ra[k] == rb[k] for k in ra]))     # identical in every decoded field (unused bits may differ)
-            calls3 = push(con.ac_status_frame(pid=0x62, only=[0]))
+            calls3 = push(con.ac_status_frame(pid=0x62, only=[ta]))
         elif kind == "zone":
-            prev = inst.zone_status[0]
-            inst.zone_status[0] = (r4.build_group_status(0, 3, 0, 7, 1, 1, 9, 1, 555, 1) if g.n == 4 else r5.build_zone_status(0, 3, 0, 7, 33, 1, 555, 1, 1))
+            prev = inst.zone_status[tz]
+            inst.zone_status[tz] = (r4.build_group_status(tz, 3, 0, 7, 1, 1, 9, 1, 555, 1) if g.n == 4 else r5.build_zone_status(tz, 3, 0, 7, 33, 1, 555, 1, 1))
             rd = r4.group_status_record if g.n == 4 else r5.zone_status_record
-            ra, rb = rd(prev), rd(inst.zone_status[0])
+            ra, rb = rd(prev), rd(inst.zone_status[tz])
             same3 = _b(sym_and(*[ra[k] == rb[k] for k in ra]))
-            calls3 = push(con.zone_status_frame(pid=0x62, only=[0]))
+            calls3 = push(con.zone_status_frame(pid=0x62, only=[tz]))
         elif kind == "timer":
-            inst.timers[0] = (0, 23, 59, 0, 22, 58)
+            inst.timers[ta] = (0, 23, 59, 0, 22, 58)
             calls3 = push(con.timer_status_frame(pid=0x62))
         else:
             inst.version = (True, "7.7.7")
@@ -232,7 +243,7 @@ def run(ctx, p):
         n3 = [c[0] for c in calls3]
         # frame 3 differs from whatever frame 2 was unless frame 2 happened to equal it (excluded by the fixed odd values for AC/zone)
         if kind in ("timer",):
-            same3 = _b(sym_and(*[a == b for a, b in zip(inst.timers[0], tm)]))
+            same3 = _b(sym_and(*[a == b for a, b in zip(inst.timers[ta], tm)]))
         if not same3:
             ctx.check((main in n3) == expect_probe, "later_frames_still_notify", detail=dict(detail, calls=calls3))
         ctx.check(len(rig.net.conns) == n_conn and not rig.task_failures(), "later_frames_still_notify", detail="connection disturbed / task failure")
